@@ -20,9 +20,13 @@ Spec: `View = ι → Option μ`, `apply`, `fold`, `WFHist` (`ScVerif/C09/Change.
 Quantifiers: every theorem holds for all input streams (well-formed where stated) and all patterns
 `ms : List Move` of "offer one input" / "take one output" — i.e. every producer/consumer interleaving.
 
+The forwarder's transform (`Include.lean`): `(*CollectionChange).include` as coded (`includeChange f`) and the
+filtered view it simulates (`restrict f`, `Sim`); `C09_pipeline_view` is stated for any transform with `Sim`.
+
 Part 2 (`PropsSubs.lean`): subscribers on top of the pipeline — Collection.Pull's seed loop, PullID as a
 fourth stage, several subscribers on one bus, Value.Pull's forwarder as coded with its response filter,
-a backpressured subscriber, and the "eventually" theorems.
+a backpressured subscriber, the seed list as coded, the "eventually" theorems.  Part 3 (`PropsMixed.lean`):
+lossy and backpressured subscribers mixed on one bus, `Bus.Send` listener by listener.
 
 Only property theorems and their non-vacuity examples live in this file.
 -/
